@@ -1,4 +1,4 @@
-import Cgm.Driver.OpsExtra
+import Cgm.Driver.OpsExtra3
 /-!
 # Driver: reads op lines on stdin, prints the model's answer per line.
 -/
@@ -27,7 +27,9 @@ def lookup (name : String) : Option Op :=
   (opsBranch name).orElse fun _ =>
   (opsXformSpecial name).orElse fun _ =>
   (lookupTyped name).orElse fun _ =>
-  opsExtra name
+  (opsExtra name).orElse fun _ =>
+  (opsExtra2 name).orElse fun _ =>
+  opsExtra3 name
 
 def runLine (line : String) : String :=
   match (line.splitOn " ").filter (· ≠ "") with
